@@ -411,3 +411,138 @@ def numeric_stream(ctx, drv):
         if m.get("ok") != impl:
             ctx.disagree("numeric-scalar", {"numeric_scalar": repr(v)[:40], "type": type(v).__name__}, m.get("ok"), impl,
                          note="_is_numeric_scalar")
+
+
+# ---- the type-dispatch chain ---------------------------------------------------------------------------
+def facts(v):
+    """the facts `_serialize_value` asks about a value, evaluated by the harness itself"""
+    import numpy as np
+    import torch
+    from quantem.core.io.serialize import AutoSerialize
+    h = lambda n: hasattr(v, n)  # noqa: E731
+    f = dict(
+        isTensor=isinstance(v, torch.Tensor), isOptimizer=isinstance(v, torch.optim.Optimizer), hasStep=h("step"),
+        hasGetLastLr=h("get_last_lr"), hasAddScalar=h("add_scalar"), hasAddImage=h("add_image"), hasLog=h("log"), hasInfo=h("info"),
+        isModule=isinstance(v, torch.nn.Module), hasModuleAttr=h("__module__"),
+        moduleMentionsTorch=bool(h("__module__") and "torch" in str(v.__module__)), isNdarray=isinstance(v, np.ndarray),
+        isInt=isinstance(v, int), isFloat=isinstance(v, float), isStr=isinstance(v, str), isBool=isinstance(v, bool), isNone=v is None,
+        hasDtype=h("dtype"), hasItem=h("item"), isNpComplex=isinstance(v, np.complexfloating), hasFspath=h("__fspath__"),
+        typeStrPathlib=str(type(v)).startswith("<class 'pathlib."), isAutoSerialize=isinstance(v, AutoSerialize),
+        isList=isinstance(v, list), isTuple=isinstance(v, tuple), isDict=isinstance(v, dict), isSet=isinstance(v, set),
+        hasBitGenerator=h("bit_generator"), hasGetState=h("get_state"), hasSetState=h("set_state"))
+    return {k: bool(b) for k, b in f.items()}
+
+
+def real_branch(value):
+    """which branch the real `_serialize_value` took, read off what it left in an in-memory group"""
+    import gzip
+    import numpy as np
+    import zarr
+    from . import ser_classes
+    g = zarr.group(store=zarr.storage.MemoryStore())
+    with contextlib.redirect_stdout(io.StringIO()):
+        ser_classes.SA.__new__(ser_classes.SA)._serialize_value(value, g, "x", set(), (), None)
+    if "x" in g.attrs:
+        return "path" if g.attrs.get("x.is_path") else "attr"
+    if "x" in list(g.array_keys()):
+        a = g["x"]
+        if a.dtype == np.uint8 and a.ndim == 1:
+            try:
+                gzip.decompress(np.asarray(a[:]).tobytes())
+                return "fallback"
+            except Exception:  # noqa
+                pass
+        return "ndarray"
+    if "x" in list(g.group_keys()):
+        at = dict(g["x"].attrs)
+        for flag, name in (("_torch_tensor", "tensor"), ("_torch_optimizer", "optimizer"), ("_torch_scheduler", "scheduler"),
+                           ("_torch_logger", "torchLogger"), ("_python_logger", "pyLogger"), ("_torch_whole_module", "module"),
+                           ("_autoserialize", "obj")):
+            if at.get(flag):
+                return name
+        if at.get("_container_type") is not None:
+            return "set" if at["_container_type"] == "set" else "container"
+        if at.get("_numpy_rng"):
+            return "npRng"
+        if at.get("_torch_rng_skipped"):
+            return "torchRng"
+    return "nothing-recognisable-written"
+
+
+def kind_objects(scratch):
+    import logging
+    import numpy as np
+    import torch
+    from . import ser_classes
+    lin = torch.nn.Linear(2, 2)
+    opt = torch.optim.SGD(lin.parameters(), lr=0.1)
+    o = ser_classes.SB.__new__(ser_classes.SB)
+    o.a = 1
+    kinds = {
+        "tensor": torch.tensor([1.0]), "parameter": torch.nn.Parameter(torch.tensor([1.0])), "optimizer": opt,
+        "scheduler": torch.optim.lr_scheduler.StepLR(opt, 2), "pyLogger": logging.getLogger("qv.a"), "module": lin,
+        "torchGenerator": torch.Generator(), "torchSize": torch.Size([1, 2]), "torchDtype": torch.float32,
+        "ndarray": np.arange(3), "ndarray0d": np.array(1.5), "pyBool": True, "pyInt": 3, "pyFloat": 1.5, "pyStr": "s", "pyNone": None,
+        "npFloat64": np.float64(1), "npFloat32": np.float32(1), "npInt64": np.int64(1), "npBool": np.bool_(True), "npStr": np.str_("a"),
+        "npComplex": np.complex64(1), "path": pathlib.Path("a"), "purePath": pathlib.PurePosixPath("a"), "obj": o,
+        "list": [1], "tuple": (1,), "dict": {}, "set": set(), "npRng": np.random.default_rng(1),
+        "pyComplex": 1 + 2j, "bytes": b"x", "frozenset": frozenset(),
+    }
+    try:
+        from torch.utils.tensorboard import SummaryWriter
+        kinds["summaryWriter"] = SummaryWriter(log_dir=os.path.join(scratch, "tb"))
+    except Exception:  # noqa  (tensorboard not installed: that row of the table is not measured)
+        pass
+    # degenerate members of the same kinds
+    more = [("ndarray", np.zeros((0, 3))), ("ndarray", np.array(["a"])), ("ndarray0d", np.array(True)), ("pyInt", 0), ("pyInt", 2 ** 70),
+            ("pyFloat", float("nan")), ("pyFloat", -0.0), ("pyStr", ""), ("pyBool", False), ("npFloat32", np.float16(0)),
+            ("npInt64", np.uint8(0)), ("npBool", np.bool_(False)), ("npComplex", np.complex128(0)), ("list", []), ("tuple", ()),
+            ("dict", {"a": 1}), ("set", {1}), ("tensor", torch.tensor(0)), ("tensor", torch.zeros((0,))), ("bytes", b""),
+            ("npRng", np.random.Generator(np.random.MT19937(1))), ("module", torch.nn.Sequential())]
+    return list(kinds.items()) + more
+
+
+def dispatch_stream(ctx, drv):
+    scratch = _scratch("dispatch")
+    try:
+        table = drv.ask({"op": "kinds"})["ok"]
+        objs = kind_objects(scratch)
+        measured = set()
+        for kind, v in objs:
+            f = facts(v)
+            on = sorted(k for k, b in f.items() if b)
+            case = {"dispatch": kind, "repr": repr(v)[:40]}
+            ctx.count()
+            if sorted(table[kind]["feat"]) != on:
+                ctx.disagree("dispatch-facts", case, sorted(table[kind]["feat"]), on,
+                             note="facts of a value kind (SerDispatch.featOf) vs the real object")
+            m = drv.ask({"op": "dispatch", "feat": f})["ok"]
+            if m["model"] != m["gen"]:
+                ctx.disagree("dispatch-generated", case, m["model"], m["gen"], note="hand model vs the chain translated from the source")
+            rb = real_branch(v)
+            if rb != m["obs"]:
+                ctx.disagree("dispatch-branch", case, m["obs"], rb, note="branch taken by _serialize_value")
+            if m["gen"] != table[kind]["branch"]:
+                ctx.disagree("dispatch-kind", case, table[kind]["branch"], m["gen"], note="SerDispatch.branchOf")
+            measured.add(kind)
+            ctx.mark(("dispatch", kind, rb))
+            ctx.dist["dispatch:" + rb] += 1
+            if hasattr(v, "close") and kind == "summaryWriter":
+                v.close()
+        ctx.extra["dispatch_kinds_measured"] = f"{len(measured)}/{len(table)}"
+        # values of the universe: the node `encode` stores shows the branch the real code takes
+        rng = ctx.rng.fork(882001)
+        g = sc.Gen(rng, {"rng_in_container": True, "fallback_in_container": True, "npcomplex": True})
+        b = sc.Builder(None)
+        for i in range(ctx.n(120, 1200)):
+            r = g.value(rng.weighted([(0, 3), (1, 1)]))
+            v = b.build(r)
+            spec = sc.observe(v)
+            m = drv.ask({"op": "nodeobs", "v": spec})["ok"]
+            ctx.count()
+            rb = real_branch(v)
+            if rb != m["obs"]:
+                ctx.disagree("dispatch-encode", {"dispatch_value": r}, m, rb, note="branch shown by encode's node vs _serialize_value")
+            ctx.dist["dispatch-value:" + m["kind"]] += 1
+    finally:
+        shutil.rmtree(scratch, ignore_errors=True)
